@@ -54,7 +54,9 @@ def proj_section(sv, rec, top=False):
     tname = sv.getSectionType() or ""
     T = rec["top"] if top else rec["types"].get(tname)
     attrs = list(sv.getSectionAttributes())
-    public = sorted(k for k in sv.__dict__ if not k.startswith("_"))
+    # everything the section value carries besides its own book-keeping (a declared attribute may itself
+    # begin with an underscore)
+    public = sorted(k for k in sv.__dict__ if k not in ("_name", "_matcher", "_attributes"))
     out = {"type": tname, "name": sv.getSectionName() or "", "attrs": {}}
     if T is None or T["abstract"]:
         out["unknown_type"] = True
